@@ -86,6 +86,7 @@ func main() {
 	}
 	overlay := map[string]string{}
 	nMapRange := 0
+	nPools := 0
 	for i, f := range files {
 		nMapRange += rewriteFile(f, info, pkg)
 		f.Comments = nil
@@ -93,8 +94,16 @@ func main() {
 		if err := format.Node(&buf, fset, f); err != nil {
 			fatal(fmt.Errorf("printing %s: %w", paths[i], err))
 		}
+		src := buf.Bytes()
+		if bytes.Contains(src, []byte("sync.Pool")) {
+			// sync.Pool hands out items depending on the runtime's scheduling and collections: under the harness it
+			// is replaced by a deterministic LIFO (the same schedule must give the same execution)
+			src = bytes.ReplaceAll(src, []byte("sync.Pool"), []byte("verifPool"))
+			src = append(src, []byte("\nvar _ sync.Mutex\n")...)
+			nPools++
+		}
 		dst := filepath.Join(*out, filepath.Base(paths[i]))
-		if err := os.WriteFile(dst, buf.Bytes(), 0o644); err != nil {
+		if err := os.WriteFile(dst, src, 0o644); err != nil {
 			fatal(err)
 		}
 		overlay[paths[i]] = dst
@@ -130,7 +139,7 @@ func main() {
 			np++
 		}
 	}
-	fmt.Printf("instr: %d files, %d points, %d map-range sites, %d globals\n", len(files), np, nMapRange, ng)
+	fmt.Printf("instr: %d files, %d points, %d map-range sites, %d globals, %d files with sync.Pool replaced\n", len(files), np, nMapRange, ng, nPools)
 }
 
 func fatal(err error) {
@@ -354,7 +363,35 @@ import (
 	"fmt"
 	"reflect"
 	"sort"
+	"sync"
 )
+
+// verifPool stands in for sync.Pool: a LIFO, deterministic under a given schedule.
+type verifPool struct {
+	New   func() interface{}
+	mu    sync.Mutex
+	items []interface{}
+}
+
+func (p *verifPool) Get() interface{} {
+	p.mu.Lock()
+	defer p.mu.Unlock()
+	if n := len(p.items); n > 0 {
+		x := p.items[n-1]
+		p.items = p.items[:n-1]
+		return x
+	}
+	if p.New != nil {
+		return p.New()
+	}
+	return nil
+}
+
+func (p *verifPool) Put(x interface{}) {
+	p.mu.Lock()
+	defer p.mu.Unlock()
+	p.items = append(p.items, x)
+}
 
 // VerifHook, when set, is called before every statement of package astisub.
 var VerifHook func(site int)
